@@ -62,7 +62,11 @@ def strategy(ctx):
 
 def run(ctx):
     n = 20 if ctx.quick else 300
-    cases = configs.collect(strategy(ctx), ctx.seed, n)
+    # fixed composition: 70 % uninterrupted runs, 30 % with 1-2 kill/resume
+    n_res = max(3, (3 * n) // 10)
+    cases = configs.collect(configs.ins_job(), ctx.seed, n - n_res)
+    cases += configs.collect(configs.ins_job(resume_cycles=(1, 2)),
+                             ctx.seed + 1, n_res)
     cases += runcheck.known_cases("C03")
     return runcheck.execute_cases(ctx, "c03", cases, make_history, judge)
 
